@@ -174,6 +174,10 @@ func registerHarnessIntrinsics() {
 		in.schedFork = in.schedLevel > 0
 		return nil, true
 	})
+	reg("vSchedFilter", func(in *Interp, fr *frame, args []Value) (Value, bool) {
+		in.schedFilter = concName(args[0])
+		return nil, true
+	})
 	reg("vPreemptBudget", func(in *Interp, fr *frame, args []Value) (Value, bool) {
 		in.preemptBudget = in.concreteInt(fr, args[0], "vPreemptBudget")
 		return nil, true
